@@ -382,6 +382,7 @@ func rulePoolDiscipline(c *Check, w *World, tb *TB, rule string, fns []*ssa.Func
 			poolT := tb.Of(g.Common().Args[0]).String()
 			p := &poolWalk{c: c, w: w, tb: tb, rule: rule, top: f, site: fmt.Sprintf("Get#%d[%s]", gi, poolT), ok: true, seen: map[string]bool{}}
 			p.confine(f, []ssa.Value{gv}, true, false, 0)
+			p.defPuts, p.dirPuts = dedupInstrs(p.defPuts), dedupInstrs(p.dirPuts)
 			// released once: a deferred Put plus any other Put, or two direct Puts one of which can follow the other,
 			// hand the same object to the pool twice — two later Gets then share it
 			switch {
@@ -809,6 +810,18 @@ func (w *World) Funcs(pkg string, names ...string) []*ssa.Function {
 	for _, n := range names {
 		if f := w.Func(pkg, n); f != nil {
 			out = append(out, f)
+		}
+	}
+	return out
+}
+
+func dedupInstrs(in []ssa.Instruction) []ssa.Instruction {
+	seen := map[ssa.Instruction]bool{}
+	var out []ssa.Instruction
+	for _, x := range in {
+		if !seen[x] {
+			seen[x] = true
+			out = append(out, x)
 		}
 	}
 	return out
